@@ -298,7 +298,7 @@ class SG:
             return self.i(-50, 500)
         if k < 9:
             return {"c": self.pick(["CONST_A", "ACTOR_PLAYER", "$x", "LEVEL_S01P01A", "lower_c"])}
-        return {"d": self.pick(["1.5", "0.25", "-2.0", "63.996"])}
+        return {"d": self.pick(["1.5", "0.25", "-2.0", "63.996", "0.0000001", "-0.00000025", "1.9999999999999999", "0.99999999999999999", "9007199254740993.5", "0.00000000", "127.000000000000000001"])}
 
     def string(self):
         if self.b(1, 3):
